@@ -56,6 +56,37 @@ CLAIMED.update({
         design_ref='DESIGN.md §6 C19'),
 })
 
+CLAIMED.update({
+    'C09': dict(
+        text='Lean 4 model of merge_table_key1/2/3, the feature/match collection merges and merge_records_data as first-wins '
+             'folds; theorems for any number of inputs: lookup = entry of the earliest input defining the key, keys = union, '
+             'no duplicates, skipped/absent parts (over dispatch and guard tables GENERATED from merge_keep_ids.py and the merge '
+             'tool), and the source input of every feature/match/record file. Tied by correspondence on real datasets on disk '
+             '(tar/dir, every transfer strategy, through merge_keep_ids and the tool).',
+        note=COMMON_NOTE + 'tables are compared through kapture.flatten; shutil/os.symlink/tarfile are observed through merged '
+             'files; known finding: the merge tool with some skip lists dies in the loader (known_findings.json).',
+        technique='Lean 4 proof (first-wins fold lemmas, generated dispatch tables) + differential correspondence on disk',
+        design_ref='DESIGN.md §6 C09'),
+    'C10': dict(
+        text='Lean 4 model of _compute_new_ids and the renamed table merges (after the D9 fix); theorems for any number of '
+             'inputs: all fresh ids pairwise distinct, each input gets the mapping of its own ids (missing parts do not shift '
+             'others), the merge IS the concatenation of the inputs renamed through their own mapping (nothing lost, duplicated '
+             'or attributed to another input), counts add up, lookup law, renamed keys never collide. Tied by correspondence with '
+             'identical ids across inputs and parts missing at every position.',
+        note=COMMON_NOTE + 'decimal rendering of sensor<n>/rig<n> is trusted injective; rig members are sensors.',
+        technique='Lean 4 proof (fold invariants in the Except monad) + differential correspondence + scheme-agnostic oracle',
+        design_ref='DESIGN.md §6 C10'),
+    'C11': dict(
+        text='Lean 4 model of merge_points3d_and_observations/merge_points3d; theorems for any number of reconstructions: merged '
+             'cloud = concatenation, point i of input n is point i+offset, every observation is kept on the shifted index with '
+             'the same type/image/feature and the same coordinates, nothing invented, counts add up, width preserved, success '
+             'for one width. Tied by correspondence through merge_keep_ids on disk (dir/tar features).',
+        note=COMMON_NOTE + 'np.vstack is modelled as row concatenation with a width check; inputs without points contribute no '
+             'observations (as in the code).',
+        technique='Lean 4 proof (fold invariant with offsets) + differential correspondence (exact float bits)',
+        design_ref='DESIGN.md §6 C11'),
+})
+
 NOT_YET = {
 }
 
